@@ -240,10 +240,11 @@ class PointList(Node):
         grp = Node.to_h5(self,group)
         # Add data
         for f,t in zip(self.fields,self.types):
+            assert(t.shape == ()), f"PointList fields must be scalars to be saved; field '{f}' has the sub-array dtype {t}"
             assert('/' not in f), f"field names can't contain '/' - HDF5 would read '{f}' as a path"
             group_current_field = grp.create_dataset(
                 f,
-                data = self.data[f]
+                data = np.atleast_1d(self.data[f])
             )
             group_current_field.attrs.create("dtype", np.bytes_(t))
         # Return
